@@ -49,6 +49,7 @@ def generate(st):
         'index_name': sw.choice([None, None, None, 'date', 'obs', 'mixed']),
         'unordered': sw.random() < 0.3,        # a version need not list its observation dates in ascending order
         'stamp_offset': sw.choice([0, 0, 0, 0, 3600, 86400, 300 * 86400]),     # publishers may stamp ahead of the clock
+        'branching': sw.random() < 0.3,        # a second consumer keeps an earlier store object and catches up later
     }
     if cfg['stamp_offset']:
         cfg['modes'] = ['explicit']
@@ -157,10 +158,14 @@ def generate(st):
             ops.append({'op': 'redeliver', 'k': f.randrange(n_pub)})
             if g.random() < 0.5:
                 ops.append(read_op())
+        elif r < 0.77 and n_pub and cfg.get('branching'):
+            ops.append({'op': 'snapshot'} if g.random() < 0.5 else {'op': 'branch', 'resnap': g.random() < 0.5})
         elif r < 0.8:
             ops.append({'op': 'bump', 'bump': g.choice([0, 1, '1b', '-1b', '1w', '1m']), 'vals': version()})
         else:
             ops.append(read_op())
+    if cfg.get('branching'):
+        ops.append({'op': 'branch'})
     ops.append({'op': 'sweep'})
     return {'prop': PROP, 'cfg': cfg, 'ops': ops}
 
@@ -233,6 +238,8 @@ def execute(trace, ctx=None):
     model = Model()
     store = None
     messages = []          # every published Bi, for redelivery
+    merge_log = []         # every version merged into the store, in order (redeliveries included)
+    snap = {}              # a consumer that kept an EARLIER store object: {'store':..., 'at': len(merge_log)}
     caller_lists = {}      # op index -> (the caller's list object of plain series, its versions)
     live_reads = []        # (T, op index, result dict) for the no-look-ahead invariant
     pub_stamps_after = []  # (op index, stamp) of every publish/redelivery
@@ -265,7 +272,9 @@ def execute(trace, ctx=None):
     def do_read(T, what):
         state['reads'] += 1
         Tl = T                     # the form the reader passes the as-of time in: datetime, pandas Timestamp or numpy datetime64
-        if state['reads'] % 5 == 3:
+        if T is None:
+            res.probe('read-without-asof')
+        elif state['reads'] % 5 == 3:
             Tl = pd.Timestamp(T)
             res.probe('asof-as-Timestamp')
         elif state['reads'] % 5 == 4:
@@ -409,6 +418,7 @@ def execute(trace, ctx=None):
                         res.probe('date-first-published-later')
                 model.publish(stamp, vals)
                 messages.append((msg, stamp, vals))
+                merge_log.append(messages[-1][0])
                 store = new_store
                 after_publication(stamp)
                 _check_store(store, model, k)
@@ -428,6 +438,7 @@ def execute(trace, ctx=None):
                 for stamp, vals, ser in ((t0, olds, so), (t1, news, sn)):
                     model.publish(stamp, vals)
                     messages.append((lib(lambda ser=ser, stamp=stamp: Bi(ser, stamp), 'Bi'), stamp, vals))
+                    merge_log.append(messages[-1][0])
                     after_publication(stamp)
                 _check_store(store, model, k)
             elif kind == 'publish_many':
@@ -457,6 +468,7 @@ def execute(trace, ctx=None):
                                 res.probe('same-stamp-override')
                     model.publish(stamp, vals)
                     messages.append((b, stamp, vals))
+                    merge_log.append(messages[-1][0])
                     after_publication(stamp)
                 _check_store(store, model, k)
             elif kind == 'republish_list':
@@ -471,6 +483,7 @@ def execute(trace, ctx=None):
                 for raw, vals in versions:
                     model.publish(stamp, vals)
                     messages.append((lib(lambda raw=raw: Bi(series(raw), stamp), 'Bi'), stamp, vals))
+                    merge_log.append(messages[-1][0])
                     after_publication(stamp)
                 _check_store(store, model, k)
             elif kind == 'publish_swapped':
@@ -495,6 +508,7 @@ def execute(trace, ctx=None):
                 res.probe('correction-swapping-two-held-values')
                 model.publish(stamp, vals)
                 messages.append((msg, stamp, vals))
+                merge_log.append(messages[-1][0])
                 after_publication(stamp)
                 _check_store(store, model, k)
             elif kind == 'bad_merge':
@@ -525,6 +539,7 @@ def execute(trace, ctx=None):
                     continue
                 before = all_reads() if in_store else None
                 store = lib(lambda: bi_merge(store, msg), 'bi_merge(store, redelivered)')
+                merge_log.append(msg)
                 res.fault('dup_delivery')
                 model.publish(stamp, vals)
                 after_publication(stamp)
@@ -566,9 +581,37 @@ def execute(trace, ctx=None):
                 if late:
                     raise Violation('stamp-in-future', 'Bi(series, %r) produced stamps %s later than now=%s' % (op['bump'], late[:3], SimClock.now), k)
                 res.probe('bump-stamp-capped-at-now')
+            elif kind == 'snapshot':
+                if store is not None:
+                    snap['store'], snap['at'] = store, len(merge_log)
+                    res.probe('earlier-store-kept')
+            elif kind == 'branch':
+                # a second consumer kept an earlier store object and now catches up: it merges, in order, everything that was
+                # published since into ITS store.  Its reads must be those of the same history (the model)
+                if 'store' not in snap or store is None or snap['at'] >= len(merge_log):
+                    continue
+                alt = snap['store']
+                for m_ in merge_log[snap['at']:]:
+                    alt = lib(lambda: bi_merge(alt, m_), 'bi_merge(earlier store, later version)')
+                main = store
+                store = alt
+                try:
+                    _check_store(store, model, k)
+                    for T in read_points():
+                        for w in (-1, 0):
+                            check_read(T, w, 'second consumer catching up from an earlier store')
+                finally:
+                    store = main
+                res.probe('second-consumer-caught-up')
+                if op.get('resnap'):
+                    snap['store'], snap['at'] = alt, len(merge_log)
             elif kind == 'sweep':
                 if store is None:
                     continue
+                if k % 2:
+                    # "everything, whenever it was published" is asked first; the as-of reads that follow must not notice
+                    for w in (0, -1):
+                        check_read(None, w, 'sweep(no asof)')
                 for T in read_points():
                     for w in (-1, 0):
                         check_read(T, w, 'sweep')
